@@ -2912,7 +2912,8 @@ func (c *BytecodeCompiler) compileForIn(
 		paramVar := c.defineLocal(p.Value, param.Location())
 		c.emitSetLocalPop(param.Location().StartPos.Line, paramVar.index)
 	default:
-		c.pattern(param, inExpressionType)
+		// the pattern is matched against an element, not against the iterated collection
+		c.pattern(param, types.Any{})
 		jumpOverErrorOffset := c.emitJump(location.StartPos.Line, bytecode.JUMP_IF)
 
 		c.emitValue(
@@ -3977,8 +3978,9 @@ func (c *BytecodeCompiler) pattern(pattern ast.PatternNode, valType types.Type) 
 		c.compileRangeLiteralNode(pat)
 		c.emit(location.StartPos.Line, bytecode.SWAP)
 
+		// the receiver is the range, not the matched value
 		c.compileCallMethod(
-			valType,
+			types.Any{},
 			symbol.S_contains,
 			1,
 			location,
@@ -4013,8 +4015,9 @@ func (c *BytecodeCompiler) pattern(pattern ast.PatternNode, valType types.Type) 
 		c.compileNode(pat, false)
 		c.emit(location.StartPos.Line, bytecode.SWAP)
 
+		// the receiver is the regex, not the matched value
 		c.compileCallMethod(
-			valType,
+			types.Any{},
 			symbol.L_matches,
 			1,
 			location,
@@ -4029,11 +4032,11 @@ func (c *BytecodeCompiler) pattern(pattern ast.PatternNode, valType types.Type) 
 	case *ast.RecordPatternNode:
 		c.mapOrRecordPattern(c.typeOf(pat), pat.Location(), pat.Elements, false)
 	case *ast.SetPatternNode:
-		c.setPattern(pat.Location(), pat.Elements, valType)
+		c.setPattern(pat.Location(), pat.Elements, c.typeOf(pat))
 	case *ast.ListPatternNode:
-		c.listOrTuplePattern(c.typeOf(pat), pat.Location(), pat.Elements, true)
+		c.listOrTuplePattern(c.typeOf(pat), types.Normalise(pat.ElementType), pat.Location(), pat.Elements, true)
 	case *ast.TuplePatternNode:
-		c.listOrTuplePattern(c.typeOf(pat), pat.Location(), pat.Elements, false)
+		c.listOrTuplePattern(c.typeOf(pat), types.Normalise(pat.ElementType), pat.Location(), pat.Elements, false)
 	case *ast.MacroBoundaryNode:
 		stmt := pat.Body[0].(*ast.PatternStatementNode)
 		c.pattern(stmt.Pattern, valType)
@@ -4246,7 +4249,7 @@ func (c *BytecodeCompiler) objectPattern(objectTypeNode ast.ComplexConstantNode,
 				false,
 			)
 
-			c.pattern(e.Value, valType)
+			c.pattern(e.Value, c.typeOf(e))
 			c.emit(location.StartPos.Line, bytecode.POP_SKIP_ONE)
 			jmp := c.emitJump(location.StartPos.Line, bytecode.JUMP_UNLESS_NP)
 			jumpsToPatch = append(jumpsToPatch, jmp)
@@ -4316,7 +4319,7 @@ func (c *BytecodeCompiler) mapOrRecordPattern(typ types.Type, location *position
 			c.emitValue(value.ToSymbol(identifierToName(e.Key)).ToValue(), location)
 			c.compileSubscript(typ, location)
 
-			c.pattern(e.Value, typ)
+			c.pattern(e.Value, c.typeOf(e))
 			c.emit(location.StartPos.Line, bytecode.POP_SKIP_ONE)
 			jmp := c.emitJump(location.StartPos.Line, bytecode.JUMP_UNLESS_NP)
 			jumpsToPatch = append(jumpsToPatch, jmp)
@@ -4326,7 +4329,7 @@ func (c *BytecodeCompiler) mapOrRecordPattern(typ types.Type, location *position
 			c.compileNodeWithResult(e.Key)
 			c.compileSubscript(typ, location)
 
-			c.pattern(e.Value, typ)
+			c.pattern(e.Value, c.typeOf(e))
 			c.emit(location.StartPos.Line, bytecode.POP_SKIP_ONE)
 			jmp := c.emitJump(location.StartPos.Line, bytecode.JUMP_UNLESS_NP)
 			jumpsToPatch = append(jumpsToPatch, jmp)
@@ -4436,7 +4439,7 @@ subPatternLoop:
 	c.leavePattern()
 }
 
-func (c *BytecodeCompiler) listOrTuplePattern(typ types.Type, location *position.Location, elements []ast.PatternNode, isList bool) {
+func (c *BytecodeCompiler) listOrTuplePattern(typ, elementType types.Type, location *position.Location, elements []ast.PatternNode, isList bool) {
 	var jumpsToPatch []int
 
 	var restVariableName string
@@ -4532,7 +4535,7 @@ func (c *BytecodeCompiler) listOrTuplePattern(typ types.Type, location *position
 		c.emitValue(value.SmallInt(i).ToValue(), element.Location())
 		c.compileSubscript(typ, location)
 
-		c.pattern(element, typ)
+		c.pattern(element, elementType)
 		c.emit(location.StartPos.Line, bytecode.POP_SKIP_ONE)
 		jmp := c.emitJump(location.StartPos.Line, bytecode.JUMP_UNLESS_NP)
 		jumpsToPatch = append(jumpsToPatch, jmp)
@@ -4606,7 +4609,7 @@ func (c *BytecodeCompiler) listOrTuplePattern(typ types.Type, location *position
 			c.emitGetLocal(location.StartPos.Line, iteratorVar.index)
 			c.compileSubscript(typ, location)
 
-			c.pattern(element, typ)
+			c.pattern(element, elementType)
 			c.emit(location.StartPos.Line, bytecode.POP_SKIP_ONE)
 			jmp := c.emitJump(location.StartPos.Line, bytecode.JUMP_UNLESS_NP)
 			jumpsToPatch = append(jumpsToPatch, jmp)
